@@ -55,7 +55,12 @@ func (x *fnExec) doCall(st *State, site ssa.Instruction, call *ssa.CallCommon, m
 	// argument terms (receiver first for invoke)
 	var args []Term
 	if call.IsInvoke() {
-		args = append(args, x.val(st, call.Value))
+		recv := x.val(st, call.Value)
+		args = append(args, recv)
+		// a method call on a nil interface value panics (non-zero exit); execution continues only with a non-nil receiver
+		if mode != "go" && mode != "defer" {
+			st.assume(not(eq(recv.S, "0")))
+		}
 	}
 	for _, a := range call.Args {
 		args = append(args, x.argVal(st, a))
@@ -63,6 +68,18 @@ func (x *fnExec) doCall(st *State, site ssa.Instruction, call *ssa.CallCommon, m
 	c := x.calleeContract(call)
 	name := x.calleeName(call)
 	ord := x.siteOrd[site]
+	if mode == "go" {
+		for _, ac := range x.c.AtGo {
+			if ac.Target == name {
+				actx := x.ctx(st)
+				for ai, a := range args {
+					actx.vars[fmt.Sprintf("$arg%d", ai)] = a
+				}
+				g := x.evalClause(st, actx, ac)
+				x.emit(st, fmt.Sprintf("atgo.%s.%s#%d", name, ac.Label, ord), "atgo", ac.Label, ac.Props, g, "before go "+name+": "+ac.Src)
+			}
+		}
+	}
 	for _, ac := range x.c.AtCall {
 		if ac.Target == name && mode != "go" {
 			actx := x.ctx(st)
